@@ -81,6 +81,14 @@ Theorem client_rx_partition : forall orcs,
 Proof. exact crx_run_inv. Qed.
 Print Assumptions client_rx_partition.
 
+(* ... and nothing stays behind: after every client receive pass (also one that read data and the
+   end of stream together) the buffer is empty and the received packets are EXACTLY the bytes
+   read from the socket. *)
+Theorem client_rx_all_delivered : forall orcs,
+  rxbuf (crx_run orcs) = [] /\ concat (rxpk (crx_run orcs)) = rxgot (crx_run orcs).
+Proof. exact crx_run_all_delivered. Qed.
+Print Assumptions client_rx_all_delivered.
+
 (* RECEIVE, server stack, for every accepted connection. *)
 Theorem server_rx_partition : forall cas ops,
   Forall (fun kc => concat (rpk (snd kc)) ++ rbuf (snd kc) = rgot (snd kc)) (r_run cas ops).
